@@ -7,6 +7,7 @@
 import TrompModel.Gen.Cxx.ReturnHandlerCall
 import TrompModel.Gen.Cxx.TraceReturnVoid
 import TrompModel.Gen.Cxx.TraceReturnValue
+import TrompModel.Gen.Cxx.ThrowHandlerCall
 import TrompModel.Tie.Base
 
 namespace Tromp.Tie
@@ -27,5 +28,14 @@ theorem return_path_tie :
 theorem return_evaluated_once :
     (Cxx.trace_return_void.map evaluations).sum = 1 ∧ (Cxx.trace_return_value.map evaluations).sum = 1 := by
   constructor <;> rfl
+
+/-- **the THROW path**: `throw_handler_t::operator()` evaluates the THROW functor `h(p)` — whose body is the `throw` statement
+    of the clause — once, inside a handler that rethrows whatever leaves it; were the functor to come back, `abort()` follows:
+    the call never returns normally through a THROW clause, and nothing stands between the exception and the caller
+    but `mock_func`'s tracing handler, which rethrows it as well (`Tie/MockFunc.lean`). -/
+theorem throw_path_tie :
+    Cxx.throw_handler_call = [Act.stmt "try, on any exception: throw;", Act.stmt "h(p)", Act.stmt "abort()"] := rfl
+
+theorem throw_evaluated_once : (Cxx.throw_handler_call.filter (· == Act.stmt "h(p)")).length = 1 := by decide
 
 end Tromp.Tie
